@@ -57,9 +57,9 @@ pub proof fn lemma_tc_same_key(h: int, x: int, r: int)
     requires inr(h), inr(x), inr(r),
     ensures fmul(h, fmul(fmul(1, x), r)) == fmul(fmul(h, x), fmul(1, r))
 {
-    broadcast use ring;
-    assert(fmul(1, x) == fmul(x, 1));
-    assert(fmul(1, r) == fmul(r, 1));
+    lemma_mul_comm(1, x); lemma_mul_one(x);
+    lemma_mul_comm(1, r); lemma_mul_one(r);
+    lemma_mul_assoc(h, x, r);
 }
 pub proof fn lemma_sub_self(a: int)
     requires inr(a),
